@@ -23,8 +23,12 @@ import copy
 import hashlib
 import io
 import os
+import pickle
 import shutil
+import struct
+import sys
 import tempfile
+import traceback
 import warnings
 
 import numpy as np
@@ -45,6 +49,7 @@ from leaspy.variables.specs import (
     PopulationLatentVariable,
 )
 
+from .core import jsonable
 from .models import MODEL_SPECS, build_model, cohort_frame
 from .oracle import brief, tensor_bytes
 
@@ -53,13 +58,33 @@ SCRATCH_ROOT = "/var/tmp/c13"
 # A, D: three individuals (fits and personalizations); B: two, C: one individual (personalizations only: 3-iteration
 # fits of 2 individuals let xi_std collapse for some seeds, which leaspy refuses with LeaspyConvergenceError)
 COHORTS = {"A": ["a", "b", "c"], "B": ["d", "e"], "C": ["e"], "D": ["d", "e", "b"]}
+# Settings variants.  "default": only the number of iterations is given (burn-in left to its default fraction: the
+# algorithm completes *its own copy* of the settings' parameters).  "custom": settings carrying NESTED containers which
+# the algorithms complete / read (annealing switched on with its length left unset -> `annealing.n_iter` is derived by
+# the algorithm; customised sampler parameters; customised solver options for scipy_minimize).
+_ANNEALING = {"do_annealing": True, "initial_temperature": 4.0, "n_plateau": 2}
+_MCMC_CUSTOM = {"n_iter": 10, "annealing": _ANNEALING, "sampler_ind_params": {"acceptation_history_length": 5}}
 PERSONALIZE_KW = {
-    "scipy_minimize": {},
-    # burn-in left to its default fraction: the algorithm then completes *its own copy* of the settings' parameters
-    "mode_posterior": {"n_iter": 10},
-    "mean_posterior": {"n_iter": 10},
+    "scipy_minimize": {
+        "default": {},
+        "custom": {"use_jacobian": False,
+                   "custom_scipy_minimize_params": {"method": "Powell", "options": {"xtol": 1e-2, "ftol": 1e-2, "maxiter": 1}}},
+    },
+    "mode_posterior": {"default": {"n_iter": 10}, "custom": _MCMC_CUSTOM},
+    "mean_posterior": {"default": {"n_iter": 10}, "custom": _MCMC_CUSTOM},
 }
-FIT_KW = {"n_iter": 3}
+FIT_KW = {
+    "default": {"n_iter": 3},
+    "custom": {"n_iter": 4, "annealing": _ANNEALING, "sampler_pop_params": {"acceptation_history_length": 5}},
+}
+
+
+def variant_of(op):
+    if op[0] == "fit":
+        return op[3] if len(op) > 3 else "default"
+    if op[0] == "personalize":
+        return op[4] if len(op) > 4 else "default"
+    return "default"
 
 # deliberately not sorted (neither individuals nor ages): an in-place tidy-up of the caller's table would show
 VISITS_ROWS = {"ID": ["s1", "s1", "s3", "s3", "s3", "s2"], "TIME": [62.5, 60.0, 75.0, 78.5, 76.0, 70.0]}
@@ -264,12 +289,14 @@ def make_inputs(spec, op, seed):
     if kind == "fit":
         return {
             "data": make_observations(spec, op[1], op[2]),
-            "settings": AlgorithmSettings("mcmc_saem", seed=seed, progress_bar=False, **FIT_KW),
+            "settings": AlgorithmSettings("mcmc_saem", seed=seed, progress_bar=False,
+                                          **copy.deepcopy(FIT_KW[variant_of(op)])),
         }
     if kind == "personalize":
         return {
             "data": make_observations(spec, op[2], op[3]),
-            "settings": AlgorithmSettings(op[1], seed=seed, progress_bar=False, **PERSONALIZE_KW[op[1]]),
+            "settings": AlgorithmSettings(op[1], seed=seed, progress_bar=False,
+                                          **copy.deepcopy(PERSONALIZE_KW[op[1]][variant_of(op)])),
         }
     if kind == "estimate":
         return {
@@ -377,33 +404,190 @@ def save_and_load(model, workdir, tag):
         return BaseModel.load(path), path
 
 
-def reference_model(model, snap, workdir):
-    """A model object without any call history holding exactly the live model's parameters.
+# ---------------------------------------------------------------------------------------------------------
+# process isolation.  The property speaks of "which calls were made earlier": module-level / class-level state of the
+# library is part of that history.  Therefore (a) every explored state lives in a process that executed exactly the
+# state's history and nothing else, (b) every reference answer is computed in a process that executed nothing but
+# that one call.  Both are obtained by forking *pristine templates* (processes that imported leaspy and never ran it).
 
-    It is the model loaded from the file saved right now.  When the file does not give the parameters back bit for
-    bit (float64 values after a joint fit are read back as float32; a 0-d `noise_std` is read back with shape (1,)) the
-    exact tensors of the live model are assigned to the loaded object, so that the comparison never blames a call for
-    a difference of *parameters*.  Returns (reference, how) or (None, reason)."""
-    ref, _ = save_and_load(model, workdir, "ref")
+def _send(fd, obj):
+    data = pickle.dumps(obj, protocol=pickle.HIGHEST_PROTOCOL)
+    data = struct.pack("<Q", len(data)) + data
+    view = memoryview(data)
+    while view:
+        n = os.write(fd, view)
+        view = view[n:]
+
+
+def _recv_exact(fd, n):
+    chunks = []
+    while n:
+        b = os.read(fd, min(n, 1 << 20))
+        if not b:
+            raise EOFError("peer closed the pipe")
+        chunks.append(b)
+        n -= len(b)
+    return b"".join(chunks)
+
+
+def _recv(fd):
+    (n,) = struct.unpack("<Q", _recv_exact(fd, 8))
+    return pickle.loads(_recv_exact(fd, n))
+
+
+def run_in_fork(fn, *args):
+    """fn(*args) evaluated in a forked copy of this process; its (picklable) result is returned."""
+    r, w = os.pipe()
+    pid = os.fork()
+    if pid == 0:
+        code = 0
+        try:
+            os.close(r)
+            try:
+                out = ("ok", fn(*args))
+            except BaseException as e:
+                out = ("err", "".join(traceback.format_exception(type(e), e, e.__traceback__))[-6000:])
+            _send(w, out)
+        except BaseException:
+            code = 1
+        finally:
+            os._exit(code)
+    os.close(w)
+    try:
+        out = _recv(r)
+    except EOFError:
+        out = ("err", f"forked child {pid} died without an answer")
+    finally:
+        os.close(r)
+        os.waitpid(pid, 0)
+    if out[0] == "err":
+        raise RuntimeError("harness: forked evaluation failed:\n" + out[1])
+    return out[1]
+
+
+class ForkServer:
+    """A pristine template process: every request is served by a fresh fork of the template (the template itself
+    never executes a request, so it stays as it was when the server was created)."""
+
+    def __init__(self, handler):
+        c2s_r, c2s_w = os.pipe()
+        s2c_r, s2c_w = os.pipe()
+        pid = os.fork()
+        if pid == 0:
+            try:
+                os.close(c2s_w)
+                os.close(s2c_r)
+                while True:
+                    try:
+                        msg = _recv(c2s_r)
+                    except EOFError:
+                        break
+                    if msg is None:
+                        break
+                    try:
+                        out = ("ok", run_in_fork(handler, msg))
+                    except BaseException as e:
+                        out = ("err", str(e)[-6000:])
+                    _send(s2c_w, out)
+            finally:
+                os._exit(0)
+        os.close(c2s_r)
+        os.close(s2c_w)
+        self._w, self._r, self.pid = c2s_w, s2c_r, pid
+
+    def request(self, msg):
+        _send(self._w, msg)
+        out = _recv(self._r)
+        if out[0] == "err":
+            raise RuntimeError(out[1])
+        return out[1]
+
+    def close(self):
+        try:
+            _send(self._w, None)
+        except OSError:
+            pass
+        for fd in (self._w, self._r):
+            try:
+                os.close(fd)
+            except OSError:
+                pass
+        try:
+            os.waitpid(self.pid, 0)
+        except ChildProcessError:
+            pass
+
+
+_REF = None  # ForkServer answering reference requests; created before anything of leaspy is run in this process
+
+
+def start_ref_server():
+    global _REF
+    if _REF is None:
+        _REF = ForkServer(_reference_handler)
+    return _REF
+
+
+def stop_ref_server():
+    global _REF
+    if _REF is not None:
+        _REF.close()
+        _REF = None
+
+
+def _reference_handler(msg):
+    """Runs in a fork of the pristine template: the call on a model object WITHOUT any history (no call was ever made
+    in this process) holding exactly the live model's parameters.
+
+    The object is the model loaded from the file saved just before the call.  When the file does not give the
+    parameters back bit for bit (float64 values after a joint fit are read back as float32; a 0-d `noise_std` is read
+    back with shape (1,)) the exact tensors of the live model are assigned to the loaded object, so that the
+    comparison never blames a call for a difference of *parameters*."""
+    from leaspy.variables.specs import LatentVariableInitType
+    from leaspy.variables.state import StateForkType
+
+    spec, op, seed = msg["spec"], msg["op"], msg["seed"]
+    with _quiet():
+        ref = BaseModel.load(msg["path"])
     rs = model_snapshot(ref)
     how = "file"
-    if core_of(rs) != core_of(snap):
+    if core_of(rs) != msg["core"]:
         st = ref.state
         with st.auto_fork(None):
             for p in ref.parameters_names:
-                st[p] = model.state._values[p].clone()
-            from leaspy.variables.specs import LatentVariableInitType
-
+                st[p] = msg["exact"][p].clone()
             st.put_population_latent_variables(LatentVariableInitType.PRIOR_MODE)
-        st.auto_fork_type = model.state.auto_fork_type
+        st.auto_fork_type = None if msg["fork_type"] is None else StateForkType[msg["fork_type"]]
         rs = model_snapshot(ref)
         how = "file+exact parameters"
-        if core_of(rs) != core_of(snap):
-            return None, "no history-free object with bit-identical parameters: " + first_difference(
-                canon_plain(core_of(rs)), canon_plain(core_of(snap)))
+        if core_of(rs) != msg["core"]:
+            return {"how": None, "reason": "no history-free object with bit-identical parameters: " + first_difference(
+                canon_plain(core_of(rs)), canon_plain(msg["core"]))}
     if held(rs) != {"data": [], "individual": []}:
         raise RuntimeError("harness: a freshly loaded model holds data or individual latent values")
-    return ref, how
+    inputs = make_inputs(spec, op, seed)
+    rec = Recorder()
+    try:
+        res = call(ref, op, inputs, rec)
+    except Exception as e:
+        return {"how": how, "exc": (type(e).__module__ + "." + type(e).__qualname__, type(e).__name__, str(e)[:300])}
+    return {"how": how, "exc": None, "rc": result_canon(op, res), "brief": jsonable(result_brief(op, res)),
+            "x0": [x.tobytes() for x in rec.x0], "x0_list": [x.tolist() for x in rec.x0]}
+
+
+def reference_answer(model, snap, spec, op, seed, workdir):
+    """Saves the live model and asks the pristine reference process for the answer of `op` (see _reference_handler)."""
+    if _REF is None:
+        raise RuntimeError("harness: reference server not started (start_ref_server() must be called first)")
+    path = os.path.join(workdir, "ref.json")
+    with _quiet():
+        model.save(path)
+    st = model.state
+    return _REF.request({
+        "spec": spec, "op": op, "seed": seed, "path": path, "core": core_of(snap),
+        "exact": {p: st._values[p].detach().clone() for p in model.parameters_names},
+        "fork_type": None if st.auto_fork_type is None else st.auto_fork_type.name,
+    })
 
 
 def canon_plain(x):
@@ -432,7 +616,9 @@ class Transition:
 
 def op_label(op):
     if op[0] == "personalize":
-        return f"personalize[{op[1]}]"
+        return f"personalize[{op[1]}]" if variant_of(op) == "default" else f"personalize[{op[1]}, custom settings]"
+    if op[0] == "fit":
+        return "fit" if variant_of(op) == "default" else "fit[custom settings]"
     if op[0] == "simulate":
         return f"simulate[{op[1]}]"
     return op[0]
@@ -485,8 +671,10 @@ def check_transition(model, spec, op, seed, workdir) -> Transition:
         tr.nontrivial = True
         return tr
 
-    # ---- reference object (no history, same parameters), built BEFORE the call
-    ref, how = reference_model(model, before, workdir)
+    # ---- answer of the same call on an object without history holding the same parameters, computed in a pristine
+    # process (a fork of a template that never ran leaspy) from the file saved now, BEFORE the call
+    ans = reference_answer(model, before, spec, op, seed, workdir)
+    how = ans["how"]
     mid = model_snapshot(model)
     if mid != before:
         tr.flag("save|modifies the model object|" + hl,
@@ -519,25 +707,19 @@ def check_transition(model, spec, op, seed, workdir) -> Transition:
                 f"(before: {held(before)}, after: {held(after)})",
             )
 
-    # ---- same call on the history-free object
-    ref_exc = ref_res = None
-    ref_rec = Recorder()
-    if ref is not None:
-        ref_inputs = make_inputs(spec, op, seed)
-        try:
-            ref_res = call(ref, op, ref_inputs, ref_rec)
-        except Exception as e:
-            ref_exc = e
-
+    # ---- comparison with the history-free answer
+    ref_exc = ans.get("exc") if how is not None else None
     if exc is not None:
         tr.ok = False
-        if ref is not None and ref_exc is not None and type(ref_exc) is type(exc):
+        exc_name = type(exc).__module__ + "." + type(exc).__qualname__
+        if how is not None and ref_exc is not None and ref_exc[0] == exc_name:
             # the call fails whatever the history: not a matter of this property
             tr.outcome = f"{label}:raises {type(exc).__name__} with and without history"
             return tr
         tr.outcome = f"{label}:raises {type(exc).__name__} ({hl})"
         tr.flag(
-            f"{label}|raises {type(exc).__name__} although a fresh model with the same parameters succeeds|{hl}",
+            f"{label}|raises {type(exc).__name__} although a fresh model with the same parameters "
+            + ("succeeds" if ref_exc is None else f"raises {ref_exc[1]}") + f"|{hl}",
             f"{label}: {type(exc).__name__}: {str(exc)[:300]}",
         )
         return tr
@@ -546,31 +728,28 @@ def check_transition(model, spec, op, seed, workdir) -> Transition:
     rc = result_canon(op, res)
     tr.outcome = f"{label}:returns ({hl}; reference: {how})"
 
-    if ref is None:
-        tr.outcome = f"{label}:returns ({hl}; no reference: {how[:60]})"
+    if how is None:
+        tr.outcome = f"{label}:returns ({hl}; no reference: {ans['reason'][:60]})"
     elif ref_exc is not None:
         tr.flag(
-            f"{label}|succeeds although a fresh model with the same parameters raises {type(ref_exc).__name__}|{hl}",
-            f"{label}: reference raised {type(ref_exc).__name__}: {str(ref_exc)[:300]}",
+            f"{label}|succeeds although a fresh model with the same parameters raises {ref_exc[1]}|{hl}",
+            f"{label}: reference raised {ref_exc[1]}: {ref_exc[2]}",
         )
     else:
-        ref_rc = result_canon(op, ref_res)
-        if rec.x0 or ref_rec.x0:
-            a = [x.tobytes() for x in rec.x0]
-            b = [x.tobytes() for x in ref_rec.x0]
-            if a != b:
+        if rec.x0 or ans["x0"]:
+            if [x.tobytes() for x in rec.x0] != ans["x0"]:
                 tr.flag(
                     f"{label}|optimiser starting point differs from a fresh model with the same parameters|{hl}",
                     f"{label}: starting points handed to scipy.optimize.minimize differ",
-                    expected=[x.tolist() for x in ref_rec.x0], observed=[x.tolist() for x in rec.x0],
+                    expected=ans["x0_list"], observed=[x.tolist() for x in rec.x0],
                 )
-        if rc != ref_rc:
+        if rc != ans["rc"]:
             tr.flag(
                 f"{label}|result differs from a fresh model with the same parameters|{hl}",
-                f"{label}: result of the call on the object with history is not bit-identical to the result of the same "
-                f"call on a model without history holding the same parameters (reference = {how}); first difference at "
-                f"{first_difference(ref_rc, rc)}",
-                expected=result_brief(op, ref_res), observed=result_brief(op, res),
+                f"{label}: result of the call made after this history is not bit-identical to the result of the same "
+                f"call on a model without history holding the same parameters, in a process where nothing else was "
+                f"ever run (reference = {how}); first difference at {first_difference(ans['rc'], rc)}",
+                expected=ans["brief"], observed=result_brief(op, res),
             )
 
     # ---- the same call again with the very same caller objects (settings reuse)
@@ -611,11 +790,7 @@ def apply_plain(model, spec, op, seed, workdir):
     if op[0] == "reload":
         new, _ = save_and_load(model, workdir, "reload")
         return new
-    inputs = make_inputs(spec, op, seed)
-    call(model, op, inputs)
-    if op[0] != "fit":
-        # the explorer runs non-fit calls twice on the object (settings reuse): keep the histories identical
-        call(model, op, inputs)
+    call(model, op, make_inputs(spec, op, seed))
     return model
 
 
@@ -624,6 +799,71 @@ def materialize(spec, history, seed, workdir):
     for op in history:
         model = apply_plain(model, spec, op, seed, workdir)
     return model
+
+
+def _check_one(model, spec, op, seed, workdir):
+    tr = check_transition(model, spec, op, seed, workdir)
+    return {
+        "violations": [(sig, msg, jsonable(exp), jsonable(obs)) for sig, msg, exp, obs in tr.violations],
+        "outcome": tr.outcome, "ok": tr.ok, "nontrivial": tr.nontrivial,
+        "key_after": state_key(tr.model) if tr.ok else None,
+    }
+
+
+def _expand_handler(msg):
+    """Runs in a fork of the pristine template: this process executes exactly `history` (nothing else), then every
+    operation of the menu is checked in its own fork of this process."""
+    spec, seed, wd = msg["spec"], msg["seed"], msg["workdir"]
+    try:
+        model = materialize(spec, msg["history"], seed, wd)
+    except Exception as e:
+        return {"prefix_error": type(e).__name__}
+    key = state_key(model)
+    return {"key": key, "results": [run_in_fork(_check_one, model, spec, op, seed, wd) for op in msg["ops"]]}
+
+
+def _scout(spec, ops, workdir):
+    """Runs in a throw-away fork: names of the modules the library imports lazily while executing the operations."""
+    before = set(sys.modules)
+    for op in ops:
+        try:
+            model = build_model(spec)
+            if op[0] == "reload":
+                save_and_load(model, workdir, "scout")
+            else:
+                call(model, op, make_inputs(spec, op, 0), Recorder())
+        except Exception:
+            pass
+    return sorted(set(sys.modules) - before)
+
+
+def preload_lazy_imports(spec, ops, workdir):
+    """Imports (module level code only - no call of the library is made in this process) what the library would import
+    lazily at its first calls, so that the forks of the pristine templates do not pay these imports again and again."""
+    import importlib
+
+    for name in run_in_fork(_scout, spec, ops, workdir):
+        try:
+            importlib.import_module(name)
+        except Exception:
+            pass
+
+
+class Explorer:
+    """Must be created before anything of leaspy is run in the calling process."""
+
+    def __init__(self, spec=None, ops=None, workdir=None):
+        if spec is not None:
+            preload_lazy_imports(spec, ops, workdir)
+        start_ref_server()  # first: the expansion template inherits the client side of the reference server
+        self.server = ForkServer(_expand_handler)
+
+    def expand(self, spec, history, ops, seed, wd):
+        return self.server.request({"spec": spec, "history": history, "ops": ops, "seed": seed, "workdir": wd})
+
+    def close(self):
+        self.server.close()
+        stop_ref_server()
 
 
 @contextlib.contextmanager
